@@ -591,6 +591,8 @@ def intrinsic(callee, args, t, F):
     mm = re.match(r'llvm_2e(u|s)(mul|add|sub)_2ewith_2eoverflow_2ei(\d+)$', callee)
     if mm:
         G.intrinsics.add(callee); return "%s(%s)" % (callee, ", ".join(args))
+    # __builtin_constant_p: "is not a constant" is always a legal answer (what -O0 code generation gives)
+    if callee.startswith("llvm_2eis_2econstant_2e"): return "0"
     if callee == "llvm_2etrap": return '__CPROVER_assert(0, "llvm.trap reached"); __CPROVER_assume(0)'
     mm = re.match(r'llvm_2e(ctlz|cttz|ctpop|bswap|abs|smax|smin|umax|umin)_2ei(\d+)$', callee)
     if mm:
